@@ -87,12 +87,41 @@ def printed(res, tag):
     return items
 
 
+def _spec_digest(cfg, env, extra):
+    h = hashlib.sha1()
+    for f in sorted(os.listdir(SPEC)):
+        if f.endswith('.tla') or f == cfg:
+            h.update(f.encode()); h.update(open(os.path.join(SPEC, f), 'rb').read())
+    h.update(json.dumps([cfg, sorted((env or {}).items()), extra or []]).encode())
+    return h.hexdigest()
+
+
 def generate(module, cfg, workdir, env=None, workers=1, extra=None, timeout=900):
-    """Run a Gen_* spec; returns (scenarios with ids, tlc result)."""
+    """Run a Gen_* spec; returns (scenarios, tlc result). The scenario set is a function of the specification,
+    its configuration and the seed only (never of /repo), so it is cached by a digest of exactly those."""
+    gdir = os.path.join(CACHE, 'gen')
+    os.makedirs(gdir, exist_ok=True)
+    key = os.path.join(gdir, '%s-%s.json' % (module, _spec_digest(cfg, env, extra)))
+    if os.path.exists(key):
+        try:
+            c = json.load(open(key))
+            return c['scenarios'], c['res']
+        except Exception:
+            pass
     res = tlc(module, cfg, workdir, env=env, workers=workers, extra=extra, timeout=timeout)
     if res['rc'] != 0 and 'simulate' not in ' '.join(extra or []):
         tlc_ok(res, 'generation ' + module)
     scs = printed(res, 'S')
+    res = {k: v for k, v in res.items() if k != 'out'}
+    res['out'] = ''
+    if scs:
+        tmp = key + '.%d.tmp' % os.getpid()
+        json.dump({'scenarios': scs, 'res': res}, open(tmp, 'w'))
+        os.replace(tmp, key)
+        # keep the cache small: drop older generations of the same module
+        for f in os.listdir(gdir):
+            if f.startswith(module + '-') and os.path.join(gdir, f) != key and f.endswith('.json'):
+                os.unlink(os.path.join(gdir, f))
     return scs, res
 
 
